@@ -31,7 +31,7 @@ pub fn check_text(ctx: &Ctx, sweep: &str, i: u64, shape: &str, t: &str) {
 }
 pub fn run(ctx: &Ctx) {
     let curve = Curve::new();
-    let (ks, ds) = if ctx.quick() { (c05::keys(ctx.seed, 2), c05::digests(ctx.seed, 24)) } else { (c05::keys(ctx.seed, 6), c05::digests(ctx.seed, 64)) };
+    let (ks, ds) = if ctx.quick() { (c05::keys(ctx.seed, 2), c05::digests(ctx.seed, 24)) } else { (c05::keys(ctx.seed, 34), c05::digests(ctx.seed, 384)) };
     ctx.sweep("print-parse-roundtrip", "every signature of the C05 key x digest product: Display equals 0x r(64) s(64) v(2); parsing it with and without 0x gives an equal signature", (ks.len() * ds.len()) as u64, |i| {
         let (kc, d) = &ks[i as usize / ds.len()]; let (dc, z) = &ds[i as usize % ds.len()];
         let replay = json!({"sweep": "print-parse-roundtrip", "index": i, "entry": "Signature Display / FromStr", "secret": d.to_hex64(), "digest": explore::hex(z)});
